@@ -272,6 +272,8 @@ static std::string trial(Tbl &orig, const OpSpec &o, long k, bool locked, const 
   std::unique_ptr<LT> lt;
   if (locked) lt.reset(new LT(c.lock_table()));
   size_t pre_hp = c.hashpower();
+  const size_t pre_gens = Access::all_locks(c).size();
+  const size_t pre_rc = Access::rc(c);
   std::string r;
   bool fired;
   if (std::string(mode) == "alloc") {
@@ -319,6 +321,11 @@ static std::string trial(Tbl &orig, const OpSpec &o, long k, bool locked, const 
     return "";
   }
   if (lt) lt.reset();
+  // whatever the failed call did before it failed must be published the way every resize publishes it: a lock array that
+  // became current without an advance of the resize counter lets a thread that is parked on a lock of the superseded array
+  // pass its re-validation and run next to holders of the new array's locks
+  if (Access::all_locks(c).size() != pre_gens && Access::rc(c) == pre_rc)
+    return "the failed call appended a lock array without advancing the resize counter (operations parked on the superseded array would pass re-validation: exclusive access lost)";
   std::string p;
   Abs now = abs_of(c, &p);
   if (!p.empty()) return p;
